@@ -324,8 +324,63 @@ def flatmap_error_precedence(F, R):
         R.ob('DOM', 'DOM::%s::duplicate-key-scan<IsFull' % fnkey(f), ok, 'every IsFull refusal (%d) is dominated by the duplicate-key scan (%d site(s)): full + existing key = KeyAlreadyExists' % (len(full), len(scan)), full[0].where if full else '%s:%s' % (f.file, f.line), f)
 
 
+def search_direction(F, R):
+    """Strings: a search result that is compared with the LAST possible position (`len - n`) must come from a search from the back
+    (`rfind`), one compared with the FIRST position (0) from a search from the front (`find`).  The first occurrence equals the last
+    possible position only when the needle occurs once: `"aa".strip_suffix("a")` with `find` answers `false`."""
+    n = 0
+    for f in F.find_fns(r'^iceoryx2_bb_container::(string|semantic_string)::'):
+        if f.kind == 'closure':
+            continue
+        inst = []
+        for s_ in f.sites:
+            if s_.i != 'T' and s_.node[0] == 'a' and s_.node[2][0] == 'bin' and s_.node[2][1] in ('Eq', 'Ne'):
+                a, b = sym_nstr(sym(f, s_.node[2][2])), sym_nstr(sym(f, s_.node[2][3]))
+                for x, y in ((a, b), (b, a)):
+                    m = re.match(r'^(?:[\w:<>]*::)?(r?find)\(.*\)as:Some\.0$', x)
+                    if m:
+                        end = 'last' if (re.search(r'len\(', y) and ' - ' in y) else ('first' if y == '0' else None)
+                        if end:
+                            inst.append((m.group(1), end, s_))
+            if s_.i == 'T' and s_.node[0] == 'switch':
+                x = sym_nstr(sym(f, s_.node[1]))
+                m = re.match(r'^(?:[\w:<>]*::)?(r?find)\(.*\)as:Some\.0$', x)
+                if m and any(v == 0 for v, t in s_.node[2]):
+                    inst.append((m.group(1), 'first', s_))
+        for fn_, end, s_ in inst:
+            n += 1
+            R.ob('FLOW', 'FLOW::%s::search-direction-matches-compared-end' % fnkey(f), (fn_ == 'rfind') == (end == 'last'), 'result of %s() is compared with the %s possible position; required %s' % (fn_, end, 'rfind' if end == 'last' else 'find'), s_.where, f)
+    R.floor('search results compared with an end position', n, 2)
+
+
+def string_index_in_bounds(F, R):
+    """Strings (shared default methods of the `String` trait, used by every flavour): every slice index into the CAPACITY-sized data array
+    whose index is a plain expression over len / parameters (not a loop counter) is reached only under a guard that proves it in bounds:
+    `index < capacity()` or `index < len()`.  `len <= capacity` is the container invariant, so `len >= idx` proves nothing for idx == len on a
+    full string: the reference container refuses (remove) or does nothing (empty range), the string panics."""
+    n = 0
+    for f in F.find_fns(r'^iceoryx2_bb_container::string::String::\w+$'):
+        k = 0
+        for s_ in f.sites:
+            if not (s_.i == 'T' and s_.node[0] == 'assert' and 'BoundsCheck' in str(s_.node[5])):
+                continue
+            sp = lib._split_top(sym_nstr(sym(f, s_.node[1])))
+            if not sp or sp[1] != '<' or 'next(' in sp[0] or re.fullmatch(r'\d+', sp[0]):
+                continue    # loop counters / constant index: not judged here
+            idx = sp[0]
+            k += 1
+            n += 1
+            conds = [lib._split_top(c) for c in lib.path_conds(f, s_, F)]
+            bound = r'^(capacity|len)\(self\)$'
+            ok = any(c and ((c[0] == idx and c[1] == '<' and re.match(bound, c[2])) or (c[2] == idx and c[1] == '>' and re.match(bound, c[0]))) for c in conds)
+            R.ob('CMP', 'CMP::%s::index-proven-in-bounds#%d' % (fnkey(f), k), ok, 'data[%s] is reached under %s; required a guard `%s < capacity()` or `%s < len()`' % (idx[:60], ['(%s %s %s)' % c for c in conds if c][:3], idx[:40], idx[:40]), s_.where, f)
+    R.floor('plain slice indices in String default methods', n, 4)
+
+
 def check(F, R, tier):
     delegates_same(F, R)
+    search_direction(F, R)
+    string_index_in_bounds(F, R)
     refusal_before_write(F, R)
     drop_coverage(F, R)
     ring_index(F, R)
